@@ -189,6 +189,15 @@ func (p *Program) resolve(v ssa.Value) ssa.Value {
 			if x.Op != token.MUL {
 				return v
 			}
+			if fa, isFA := x.X.(*ssa.FieldAddr); isFA {
+				// a field of a struct-typed local that is initialised once (composite literal) or is the spilled copy of
+				// a value receiver / parameter of an inlined helper whose argument is such a local
+				if fv := p.structFieldValue(fa, 0); fv != nil {
+					v = fv
+					continue
+				}
+				return v
+			}
 			ci := p.cellOf(x.X)
 			if ci == nil || ci.escapes || ci.partial {
 				return v
@@ -2213,4 +2222,76 @@ func (p *Program) enumGuards(b *ssa.BasicBlock) []guard {
 		out = append(out, a.guards...)
 	}
 	return out
+}
+
+// structFieldValue: the one value field fa.Field of the struct local fa.X holds, when that is decidable: the local is
+// only read, written field by field exactly once per field (a composite literal), or assigned as a whole exactly once
+// from another such local (a by-value parameter or receiver of an inlined helper). nil otherwise.
+func (p *Program) structFieldValue(fa *ssa.FieldAddr, d int) ssa.Value {
+	al, ok := fa.X.(*ssa.Alloc)
+	if !ok || d > 4 || al.Referrers() == nil {
+		return nil
+	}
+	if _, isStruct := deref(al.Type()).Underlying().(*types.Struct); !isStruct {
+		return nil
+	}
+	var whole []*ssa.Store
+	fieldStores := map[int][]*ssa.Store{}
+	nFieldStores := 0
+	for _, ref := range *al.Referrers() {
+		switch x := ref.(type) {
+		case *ssa.DebugRef:
+		case *ssa.UnOp:
+			if x.Op != token.MUL {
+				return nil
+			}
+		case *ssa.Store:
+			if x.Addr != ssa.Value(al) {
+				return nil // the address itself is stored somewhere
+			}
+			whole = append(whole, x)
+		case *ssa.FieldAddr:
+			if x.Referrers() == nil {
+				continue
+			}
+			for _, r2 := range *x.Referrers() {
+				switch y := r2.(type) {
+				case *ssa.DebugRef:
+				case *ssa.UnOp:
+					if y.Op != token.MUL {
+						return nil
+					}
+				case *ssa.Store:
+					if y.Addr != ssa.Value(x) {
+						return nil
+					}
+					fieldStores[x.Field] = append(fieldStores[x.Field], y)
+					nFieldStores++
+				default:
+					return nil // the field's address is used otherwise (passed on, indexed, …)
+				}
+			}
+		default:
+			return nil
+		}
+	}
+	switch {
+	case len(whole) == 0 && len(fieldStores[fa.Field]) == 1:
+		return fieldStores[fa.Field][0].Val
+	case len(whole) == 1 && nFieldStores == 0:
+		src, isLoad := p.resolve(whole[0].Val).(*ssa.UnOp)
+		if !isLoad || src.Op != token.MUL {
+			return nil
+		}
+		from, isAl := src.X.(*ssa.Alloc)
+		if !isAl || from == al || from.Referrers() == nil {
+			return nil
+		}
+		for _, ref := range *from.Referrers() {
+			if fa2, ok := ref.(*ssa.FieldAddr); ok && fa2.Field == fa.Field {
+				return p.structFieldValue(fa2, d+1)
+			}
+		}
+	}
+	return nil
 }
